@@ -1,4 +1,5 @@
 import OpusModel.SilkSymsEnc
+import OpusModel.CeltBands
 /-
   OpusModel.OpusFrameEnc — what `opus_encode_frame_native` (src/opus_encoder.c) does with the range coder
   around the SILK payload, at the level of range-coder operations (property C08, frame-level lock step).
@@ -9,6 +10,13 @@ import OpusModel.SilkSymsEnc
     src/opus_encoder.c:1871        ec_enc_init( &enc, data, max_data_bytes-1 )   (data = output + 1)
     src/opus_encoder.c:2271-2275   SILK-only: ret = (ec_tell+7)>>3; ec_enc_done; nb_compr_bytes = ret
     src/opus_encoder.c:2421        st->rangeFinal = enc.rng ^ redundant_rng
+    src/opus_encoder.c:2237-2269   redundancy signalling: `ec_enc_bit_logp(redundancy,12)` (hybrid), `celt_to_silk` bit,
+                                   `ec_enc_uint(redundancy_bytes-2,256)` (hybrid)
+    src/opus_encoder.c:2276-2292   hybrid: nb_compr_bytes = (max_data_bytes-1)-redundancy_bytes; ec_enc_shrink
+    src/opus_encoder.c:2306-2320, 2399-2413   the 5 ms redundancy frame: a separate range coder writing
+                                   `redundancy_bytes` bytes behind the main part; its final range is `redundant_rng`
+    src/opus_encoder.c:2365-2378   hybrid: celt_encode_with_ec on the same coder (it ends with ec_enc_done)
+    src/opus_decoder.c:558-568, 606-616, 670-673   decoder: redundancy frame decoded from data+len, rangeFinal
     src/opus_encoder.c:2446-2467   the "SILK busted its target" fallback, and the trailing-zero strip
                                    `while(ret>2&&data[ret]==0)ret--` (SILK-only without redundancy; done for VBR
                                    and CBR alike — a CBR packet is padded afterwards at the packet level)
@@ -49,5 +57,76 @@ def silkCfg (bandwidth nCh frameMs10 : Nat) : Cfg :=
     nfpp := if frameMs10 = 400 then 2 else if frameMs10 = 600 then 3 else 1,
     nbSubfr := if frameMs10 = 100 then 2 else 4,
     lostFlag := 0 }
+
+
+/-! ## Frames with redundancy, hybrid frames
+
+  The CELT symbol layer is not modelled here: the operations the CELT encoder performs on the shared coder of a
+  hybrid frame are an input (`celtOps`: whatever `celt_encode_with_ec` does, including its own `ec_enc_shrink`),
+  and so are the bytes `R` and the final range `rr` of the separately coded 5 ms redundancy frame. -/
+
+/-- Redundancy signalling behind the SILK data (opus_encoder.c:2237-2263).  `gate` is the encoder's test
+    `ec_tell+17+20*(mode==HYBRID) <= 8*(max_data_bytes-1)`; without it nothing is written and there is no redundancy. -/
+def redSigOps (hybrid gate : Bool) (red c2s rb : Nat) : List Op :=
+  if gate then
+    (if hybrid then [Op.bitLogp red 12] else []) ++
+    (if red ≠ 0 then Op.bitLogp c2s 1 :: (if hybrid then [Op.uint (rb - 2) 256] else []) else [])
+  else []
+
+/-- A SILK-only frame with a redundancy frame `R` (final range `rr`) behind it: the main part is cut at
+    `(ec_tell+7)>>3` bytes (opus_encoder.c:2271-2275) and NOT stripped (:2457). -/
+def silkRedFrame (buf : List Nat) (maxDataBytes : Nat) (cfg : Cfg) (pk : PacketIn) (c2s : Nat) (R : Bytes) (rr : Nat) :
+    FrameEnc :=
+  let e1 := encRun (encInit buf (maxDataBytes - 1)) (packetOps cfg pk ++ redSigOps false true 1 c2s R.length)
+  let e2 := encDone e1
+  { payload := e2.buf.take ((tell e1 + 7) / 8).toNat ++ R, rangeFinal := e2.rng ^^^ rr }
+
+/-- The operations on the main coder of a hybrid frame: SILK payload, redundancy signalling, the shrink to
+    `nb_compr_bytes = (max_data_bytes-1) - redundancy_bytes`, then the CELT encoder's operations. -/
+def hybridOps (maxDataBytes : Nat) (cfg : Cfg) (pk : PacketIn) (gate : Bool) (red c2s rb : Nat) (celtOps : List Op) : List Op :=
+  packetOps cfg pk ++ redSigOps true gate red c2s rb ++ (Op.shrink (maxDataBytes - 1 - rb) :: celtOps)
+
+/-- A hybrid frame; `R = []`, `rr = 0` without redundancy. -/
+def hybridFrame (buf : List Nat) (maxDataBytes : Nat) (cfg : Cfg) (pk : PacketIn) (gate : Bool) (red c2s : Nat)
+    (celtOps : List Op) (R : Bytes) (rr : Nat) : FrameEnc :=
+  let e := encodeAll buf (maxDataBytes - 1) (hybridOps maxDataBytes cfg pk gate red c2s R.length celtOps)
+  { payload := e.buf.take e.storage ++ R, rangeFinal := e.rng ^^^ rr }
+
+/-- The `silk_Decode` configuration of the SILK part of a hybrid frame (internal rate 16 kHz). -/
+def hybridCfg (nCh frameMs10 : Nat) : Cfg :=
+  { rate := .wb, nCh := nCh, nfpp := 1, nbSubfr := if frameMs10 = 100 then 2 else 4, lostFlag := 0 }
+
+/-- `st->rangeFinal` of `opus_decode_frame` for a frame with `len > 1` (opus_decoder.c:558-568, 606-616, 589-596,
+    670-673): the main coder's `rng` — after the CELT part in hybrid mode — XOR the final range of the redundancy
+    frame decoded from `data+len`.  `o` is what C03's `decodeOpusFrame` established; the CELT decodes are C03's `celtFrame`. -/
+def decRangeFinal (mode bandwidth nCh spf48 : Nat) (frame : Bytes) (o : FrameOut) : Res Nat :=
+  let main : Res Nat :=
+    if mode = 1000 then .ok o.dec.rng
+    else
+      match CeltBands.celtFrame { start := 17, end_ := CeltSyms.endBandOf bandwidth, C := nCh, LM := CeltSyms.lmOf spf48 }
+              o.len.toNat o.dec with
+      | .ok cf => .ok cf.fin.c.rng
+      | .err e => .err e
+      | .oob => .oob
+      | .abort => .abort
+  let red : Res Nat :=
+    if o.redundancy ≠ 0 then
+      match CeltBands.celtFrame { start := 0, end_ := CeltSyms.endBandOf bandwidth, C := nCh, LM := 1 } o.redundancyBytes
+              (decInit ((frame.drop o.len.toNat).take o.redundancyBytes) o.redundancyBytes) with
+      | .ok cf => .ok cf.fin.c.rng
+      | .err e => .err e
+      | .oob => .oob
+      | .abort => .abort
+    else .ok 0
+  match main, red with
+  | .ok a, .ok b => .ok (a ^^^ b)
+  | .ok _, r => r
+  | r, _ => r
+
+/-- The CELT round trip as far as the final range is concerned — the hypothesis C17's `celt_frame_roundtrip` is to
+    discharge: C03's CELT decoder model, started in state `d` on a frame of `len` bytes, succeeds and ends with
+    the range `rng` (the one the CELT encoder ended with for this frame's decisions). -/
+def CeltFrameRT (cfg : CeltSyms.CeltCfg) (len : Nat) (d : Dec) (rng : Nat) : Prop :=
+  ∃ cf, CeltBands.celtFrame cfg len d = .ok cf ∧ cf.fin.c.rng = rng
 
 end Opus.OpusFrameEnc
